@@ -6,21 +6,25 @@ Import ListNotations.
 
 Record Num := mkNum {
   T :> Type;
-  zero : T; one : T; npi : T;
-  ofZ : Z -> T;
-  dyadic : Z -> Z -> T;          (* dyadic m e = m * 2^e, exact float literals *)
-  add : T -> T -> T; sub : T -> T -> T; mul : T -> T -> T; div : T -> T -> T;
-  opp : T -> T; nabs : T -> T; nsqrt : T -> T; nexp : T -> T;
+  nzero : T; none : T; npi : T;
+  nofZ : Z -> T;
+  nadd : T -> T -> T; nsub : T -> T -> T; nmul : T -> T -> T; ndiv : T -> T -> T;
+  nopp : T -> T; nabs : T -> T; nsqrt : T -> T; nexp : T -> T;
   ncos : T -> T; nsin : T -> T; nacos : T -> T; natan : T -> T;
   npow : T -> T -> T; natan2 : T -> T -> T;
-  ltb : T -> T -> bool; leb : T -> T -> bool; eqb : T -> T -> bool }.
+  nltb : T -> T -> bool; nleb : T -> T -> bool; neqb : T -> T -> bool }.
 
-Arguments zero {n}. Arguments one {n}. Arguments npi {n}. Arguments ofZ {n}.
-Arguments dyadic {n}. Arguments add {n}. Arguments sub {n}. Arguments mul {n}.
-Arguments div {n}. Arguments opp {n}. Arguments nabs {n}. Arguments nsqrt {n}.
+Arguments nzero {n}. Arguments none {n}. Arguments npi {n}. Arguments nofZ {n}.
+Arguments nadd {n}. Arguments nsub {n}. Arguments nmul {n}.
+Arguments ndiv {n}. Arguments nopp {n}. Arguments nabs {n}. Arguments nsqrt {n}.
 Arguments nexp {n}. Arguments ncos {n}. Arguments nsin {n}. Arguments nacos {n}.
 Arguments natan {n}. Arguments npow {n}. Arguments natan2 {n}.
-Arguments ltb {n}. Arguments leb {n}. Arguments eqb {n}.
+Arguments nltb {n}. Arguments nleb {n}. Arguments neqb {n}.
+
+(* short names (abbreviations; the record fields keep extraction-stable n-names) *)
+Notation zero := nzero. Notation one := none. Notation ofZ := nofZ.
+Notation add := nadd. Notation sub := nsub. Notation mul := nmul. Notation div := ndiv.
+Notation opp := nopp. Notation ltb := nltb. Notation leb := nleb. Notation eqb := neqb.
 
 Declare Scope num_scope.
 Delimit Scope num_scope with num.
